@@ -97,11 +97,6 @@ Variable dgs_in : list Z -> list (list Z).
 (** *** the receiving connection *)
 Variable nevs : list (nev).
 Let ns := nrun aead_open hp_mask nst0 nevs.
-(* no processed packet number has fallen at or below the watermark of numbers that the received-packet
-   history forgot through the MaxNumAckRanges limit (C07_watermark_only_at_limit: it only moves while the
-   history tracks MaxNumAckRanges ranges; below it a replayed packet IS processed again) *)
-Hypothesis tracked : forall q, In q (pns ns) -> ~ le_opt q (n_W ns 2%nat).
-
 Definition procs_payloads := map snd (n_procs ns).
 
 (** frames reaching the stream layer / datagrams reaching HandleDatagramFrame, in processing order *)
@@ -111,7 +106,7 @@ Definition datagrams_handled : list (list Z) := flat_map dgs_in procs_payloads.
 Lemma procs_sub : NoDup (n_procs ns) /\ incl (n_procs ns) sent.
 Proof.
   destruct (processed_from_sent aead_open hp_mask aead_seal sealed ideal sent honest nevs) as [A B].
-  fold ns in A, B. split; [apply B; exact tracked|exact A].
+  fold ns in A, B. split; [apply B|exact A].
 Qed.
 
 (* the inclusion half needs no hypothesis on the packet-number history *)
